@@ -252,7 +252,11 @@ class Linear2StageBattery(Battery):
 
         # The charging equation depends on whether the current SoC of
         # the battery is above or below the new transition SoC.
-        if self._soc < pilot_transition_soc:
+        if pilot_transition_soc >= 1:
+            # For a vanishing pilot the rampdown region is empty (its
+            # equations are singular): constant power until full.
+            curr_soc = max(min(pilot_dsoc + self._soc, 1), self._soc)
+        elif self._soc < pilot_transition_soc:
             # In the pre-rampdown region, the charging equation changes
             # depending on whether charging the battery over this
             # time period causes the battery to transition between
